@@ -806,7 +806,8 @@ func hasPhysicalRepresentation(s *descriptor.Signal) bool {
 	default:
 		hasConstrainedRange = s.Min > 0 || s.Max < float64(s.MaxUnsigned())
 	}
-	return hasScale || hasOffset || hasRange && hasConstrainedRange
+	// a 1-bit signal is a bool: it has no physical (float64) representation
+	return s.Length > 1 && (hasScale || hasOffset || hasRange && hasConstrainedRange)
 }
 
 func hasCustomType(s *descriptor.Signal) bool {
